@@ -80,6 +80,11 @@ fn body(ctx: &mut Ctx) {
             vals.push(Nat::from_digits(&alpha::pat(l, p)));
         }
     }
+    // mid-size values: the feature-conditional buffer estimates depend on the bit length
+    for l in (4..=62usize).step_by(tier.pick(3, 1)) {
+        vals.push(Nat::from_digits(&alpha::lcg_digits(l, 0)));
+        vals.push(Nat::from_digits(&alpha::pat(l, 0)));
+    }
     for v in &vals {
         let u = bu_nat(v);
         let x = -BigInt::from(u.clone());
@@ -115,9 +120,9 @@ fn body(ctx: &mut Ctx) {
     }
     // ---- roots
     {
-        let degs = [2u32, 3, 4, 5, 7, 11];
+        let degs = [2u32, 3, 4, 5, 7, 11, 16, 63, 64, 65, 100, 1000];
         for k in 60u64..=2300 {
-            if tier == Tier::Quick && k % 7 != 0 {
+            if tier == Tier::Quick && k % 7 != 0 && !(160..=176).contains(&k) {
                 continue;
             }
             let p = Nat::one().shl(k);
@@ -130,8 +135,23 @@ fn body(ctx: &mut Ctx) {
                 }
             }
         }
-        for b in [3u64, 10, 0xffff_ffff, alpha::M] {
-            for n in [2u32, 3, 5, 8, 16] {
+        // small x with every degree up to 130 (bit length <= n shortcut and its neighbourhood)
+        for x in [2u64, 3, 255, 65536, u64::MAX] {
+            for extra in [0u64, 1, 70] {
+                let xn = Nat::from_u64(x).shl(extra);
+                let u = bu_nat(&xn);
+                for n in 1..=130u32 {
+                    let r = guard(|| nat_of(&u.nth_root(n)));
+                    let ok = r.as_ref().map_or(false, |r| r.is_root_of(&xn, n));
+                    t.line(ctx, extra > 0, ok, format!("nth_root {} {} -> {:?}", xn.to_hex(), n, r.map(|r| r.to_hex())));
+                }
+            }
+        }
+        for b in [3u64, 5, 10, 0xffff_ffff, alpha::M] {
+            for n in [2u32, 3, 5, 8, 16, 65, 100, 2048] {
+                if (n as u64) * 64 > 140_000 && b > 10 {
+                    continue;
+                }
                 let p = Nat::from_u64(b).pow(n as u64);
                 for x in [p.sub(&Nat::one()).unwrap(), p.clone(), p.add(&Nat::one())] {
                     let u = bu_nat(&x);
